@@ -25,7 +25,10 @@ RULE = ("monitor records (measurement name, 0-6 data items with string/int/float
 TRUSTED_BASE = [
     "Coq 8.16.1 kernel + vm_compute (bytecode VM) for evaluating the model and the reference decoder on the cases",
     "harness/c17.py: construction of logging.LogRecord objects, canonicalisation of observations, python twin of lp_parse",
-    "model/LineProtocol.v is hand-written; tied to src/cobald/monitor/format_line.py / format_json.py by the correspondence run only",
+    "model/LineProtocol.v is hand-written; tied to src/cobald/monitor/format_line.py / format_json.py by the correspondence run; "
+    "the merge order of JsonFormatter.format and the _add_time condition additionally by translation (py2coq/units.py:gen_monitor, "
+    "trusted, fail-closed; gen/Gen_monitor.v regenerated on every run, kit/JsonIR.v, props/C17_tie.v); format_line.py by "
+    "correspondence only",
     "lp_parse is this framework's reading of the InfluxDB line-protocol reference, not InfluxDB's own parser",
     "CPython: str(int)/repr(float) printing, float(repr(x)) == x, json.dumps/json.loads, logging.Formatter.formatTime",
 ]
@@ -720,3 +723,19 @@ def shrink(case, still_fails):
                 cur, changed = cand, True
                 break
     return cur
+
+
+# ------------------------------------------------------------------ translator tie (JSON half)
+TIE_TARGETS = ["props/C17_tie.vo"]
+
+
+def regen(chk):
+    """regenerate gen/Gen_monitor.v from the current monitor/format_json.py"""
+    import os
+    from . import common
+    from py2coq import units
+    res = units.regen(common.REPO, os.path.join(common.COQDIR, "gen"), ["Gen_monitor.v"])
+    chk.coverage["translator"] = res
+    bad = [v for v in res.values() if v != "ok"]
+    if bad:
+        raise RuntimeError(bad[0])
